@@ -4,7 +4,7 @@
    directives of our own. *)
 Require Extraction.
 Require Import ExtrOcamlBasic.
-Require Import NX.Base.Prelude NX.Model.PQ NX.Model.Sink NX.Model.IPQ NX.Model.Sim NX.Model.Queue NX.Model.SeqLock.
+Require Import NX.Base.Prelude NX.Model.PQ NX.Model.Sink NX.Model.IPQ NX.Model.Sim NX.Model.Queue NX.Model.SeqLock NX.Model.TaskSM NX.Model.TaskInv NX.Model.CachedRw.
 Extraction Language OCaml.
 Set Extraction KeepSingleton.
 
@@ -18,4 +18,8 @@ Definition x_q_run (cap : nat) (ops : list (qop Z)) := q_run (queue_new cap) ops
 
 Definition x_sl_run (v0 : tval) (vals : list tval) (n : nat) (sched : list nat) := sl_outputs (sl_run (sl_init v0 vals n) sched).
 
-Extraction "../ocaml/gen/nxmodel.ml" x_pq_run x_ebuf_run x_eslot_run x_ipq_run sim_exec x_q_run x_sl_run.
+Definition x_ts_check (forget : bool) (ops : list top) := first_bad (if forget then init_forget else init_spawn) ops 0.
+
+Definition x_crw_run (ops : list crw_op) := crw_run (crw_new []) ops.
+
+Extraction "../ocaml/gen/nxmodel.ml" x_pq_run x_ebuf_run x_eslot_run x_ipq_run sim_exec x_q_run x_sl_run x_ts_check x_crw_run.
